@@ -14,7 +14,12 @@
 
 use std::cmp::Reverse;
 use std::collections::BinaryHeap;
+#[cfg(not(mimium_rs_verif_shuttle))]
 use std::sync::{Arc, Mutex};
+// verification hook (off by default): the shared task queue's lock becomes a shuttle mutex so that a
+// simulator can decide every interleaving of the scheduling call and the per-sample worker
+#[cfg(mimium_rs_verif_shuttle)]
+use shuttle::sync::{Arc, Mutex};
 
 use mimium_lang::runtime::Time;
 use mimium_lang::runtime::wasm::WasmSystemPluginAudioWorker;
